@@ -74,9 +74,20 @@ def _flip(b, pos):
     return bytes(b)
 
 
+def _stream(n):
+    out = bytearray()
+    i = 0
+    while len(out) < n:
+        out += hashlib.sha256(b"verif payload %d" % i).digest()
+        i += 1
+    return bytes(out[:n])
+
+
 def build(case):
     """(entry, key_hex, payload) after the corruption."""
     seed = bytes.fromhex(case["seed"])
+    if "payload_len" in case:       # big payloads are named by their length (bytes derived from a hash stream)
+        case = dict(case, payload=_stream(case["payload_len"]))
     payload, H, c, pos = case["payload"], case["headers"], case["corruption"], case["pos"]
     pub = keys.pub_hex(seed)
     e = ref_openpgp.entry(seed, payload, headers=H)
@@ -138,6 +149,9 @@ def build(case):
 
 
 def check_primitive(case):
+    if "payload_len" in case:
+        case = dict(case, payload=_stream(case["payload_len"]))
+        del case["payload_len"]
     seed = bytes.fromhex(case["seed"])
     # history probe: the uncorrupted entry is verified first, in the same process
     good = ref_openpgp.entry(seed, case["payload"], headers=case["headers"])
@@ -396,6 +410,18 @@ def enum_big(tier):
                    "corruption": c, "pos": n * 7 + 1, "see_also": False}
 
 
+def enum_big_payloads(tier):
+    """payload lengths at and around the sizes buffers, blocks and chunks have: 2**k - 1, 2**k, 2**k + 1 and small multiples"""
+    lens = set()
+    for k in range(6, 21 if tier == "quick" else 24):
+        lens.update((2 ** k - 1, 2 ** k, 2 ** k + 1))
+    lens.update((3 * 65536, 5 * 65536 - 1, 10 ** 6, 55, 56, 119, 120))       # SHA-256 padding boundaries too
+    H = ref_openpgp.default_headers()
+    for n in sorted(lens):
+        for c in ("none", "flip_payload"):
+            yield {"seed": keys.POOL[5].hex(), "payload_len": n, "headers": H, "corruption": c, "pos": n * 8 - 1, "see_also": False}
+
+
 def _interrupted_sweep_cases():
     from props import C12
     return C12._sweep_cases().map(lambda c: dict(c, entry='verify_signable', kind=c["kind"] if c["kind"] in ['invalid', 'valid'] else 'invalid', gpg=True))
@@ -431,6 +457,8 @@ UNITS = [
     Unit("primitive", check_primitive, essential_min=0.01, strategy=_cases, quick=1500, thorough=60000,
          essential=["corruption=none", "corruption=flip_header", "corruption=trailer_16bit", "corruption=header_truncated",
                     "hdr>=255"], doc="verify_gpg_signature returns <=> reference says valid, for corrupted reference entries"),
+    Unit("big_payloads", check_primitive, enumerate=enum_big_payloads, exhaustive=True, shards_quick=8,
+         doc="payloads of 2**k - 1, 2**k, 2**k + 1 bytes (k = 6..20, thorough ..23) and small multiples of 64 KiB: genuine signature accepted, one flipped bit rejected"),
     Unit("big_headers", check_primitive, enumerate=enum_big, exhaustive=True, shards_quick=4,
          doc="header lengths 65535 / 65536 / 70000 (the 32-bit length field) x corruptions"),
     Unit("signable", check_signable, strategy=_signable_cases, quick=800, thorough=30000,
